@@ -15,6 +15,7 @@ import (
 	"regexp"
 	"slices"
 	"strconv"
+	"strings"
 	"sync"
 	"sync/atomic"
 	"time"
@@ -1760,8 +1761,11 @@ func (s *Serf) handleRejoin(previous []*PreviousNode) {
 			continue
 		}
 
+		// memberlist splits "name/addr" at the first "/", so a node name that
+		// itself contains a "/" cannot be passed along; the name is optional,
+		// so fall back to the bare address in that case.
 		joinAddr := prev.Addr
-		if prev.Name != "" {
+		if prev.Name != "" && !strings.Contains(prev.Name, "/") {
 			joinAddr = prev.Name + "/" + prev.Addr
 		}
 
